@@ -393,7 +393,12 @@ def install(reg):
                  # produced any more, and, while a task runs, as soon as the backlog has REACHED send_bytes (a backlog of exactly send_bytes that
                  # is above the high-water mark must not be left to a producer that is already asleep)
                  ("C12-the-io-thread-sends-a-backlog-that-has-reached-send_bytes",
-                  "implies(old(len(self.requests) == 0 or self.total_outbufs_len >= self.adj.send_bytes), io_flush_attempted())")]))
+                  "implies(old(len(self.requests) == 0 or self.total_outbufs_len >= self.adj.send_bytes), io_flush_attempted())"),
+                 # the property itself: a producer is paused exactly while the backlog is above the high-water mark, so above the mark the
+                 # I/O thread must try to send whatever send_bytes says.  REFUTED on the current code for outbuf_high_watermark < send_bytes - 1
+                 # (KF-C12-1, re-enacted natively: replay/native/c12_paused_below_send_bytes.py)
+                 ("C12-the-io-thread-sends-while-a-producer-may-be-paused",
+                  "implies(old(self.total_outbufs_len > self.adj.outbuf_high_watermark), io_flush_attempted())")]))
     reg.add(FuncContract(CH + ".readable", returns=Bool,
         ensures=[("C11-not-readable-after-close-decision", "implies(self.will_close or self.close_when_flushed, not result)"),
                  ("C04-no-read-while-output-pending", "implies(self.total_outbufs_len > 0, not result)"),
